@@ -108,6 +108,7 @@ def main(argv):
     os.makedirs(os.path.dirname(evidence_path), exist_ok=True)
     pool = get_pool(int(os.environ.get('GOVC_JOBS', '16')))
     violations = []     # (obligation name, replay path, suffix)
+    outside = []
     known_lines = []
     results = []
     funcs_report = []
@@ -132,7 +133,7 @@ def main(argv):
     contracts = None
     if prog is not None:
         try:
-            contracts = load_contracts(REPO, extra=[os.path.join(VERIF, 'contracts', f) for f in P.get('extra_contracts', [])])
+            contracts = load_contracts(REPO, extra=[os.path.join(VERIF, 'contracts', f) for f in P.get('extra_contracts', [])], prog=prog)
         except Exception as e:
             p = write_replay('contracts#generable', {'obligation': 'contracts#generable', 'reason': 'contract files do not parse', 'output': str(e)})
             violations.append(('contracts#generable', p, ' no-failing-input-found'))
@@ -142,35 +143,48 @@ def main(argv):
         keys = list(P.get('functions', []))
         if tier == 'thorough':
             keys += list(P.get('functions_thorough', []))
+        outside = []
         for key in keys:
+            only = None
+            if isinstance(key, (tuple, list)):
+                key, opts = key
+                only = opts.get('only')
+            shown_key = key
+            key = prog.resolve(key)
             world = World(prog)
             t0 = time.time()
             expect = P.get('require_contract', True)
             if key not in prog.funcs:
-                results.append({'name': key + '#generable', 'func': key, 'verdict': 'out_of_subset', 'reason': 'function not found in /repo (renamed or removed)', 'time': 0})
-                funcs_report.append({'function': key, 'status': 'missing'})
+                key = shown_key
+                results.append({'name': shown_key + '#generable', 'func': key, 'verdict': 'out_of_subset', 'reason': 'function not found in /repo (renamed or removed)', 'time': 0})
+                funcs_report.append({'function': shown_key, 'status': 'missing'})
                 continue
             if expect and key not in contracts['funcs']:
-                results.append({'name': key + '#generable', 'func': key, 'verdict': 'out_of_subset', 'reason': 'no contract found for function', 'time': 0})
-                funcs_report.append({'function': key, 'status': 'no contract'})
+                results.append({'name': shown_key + '#generable', 'func': key, 'verdict': 'out_of_subset', 'reason': 'no contract found for function', 'time': 0})
+                funcs_report.append({'function': shown_key, 'status': 'no contract'})
                 continue
             try:
                 V = gen_function(world, contracts, externals.EXT, key)
             except OutOfSubset as e:
-                results.append({'name': key + '#generable', 'func': key, 'verdict': 'out_of_subset', 'reason': str(e), 'time': 0})
-                funcs_report.append({'function': key, 'status': 'out_of_subset', 'reason': str(e)})
+                results.append({'name': shown_key + '#generable', 'func': key, 'verdict': 'out_of_subset', 'reason': str(e), 'time': 0})
+                funcs_report.append({'function': shown_key, 'status': 'out_of_subset', 'reason': str(e)})
                 continue
             except Exception as e:   # engine error: never a silent pass
                 import traceback
-                results.append({'name': key + '#generable', 'func': key, 'verdict': 'out_of_subset', 'reason': 'engine error: ' + traceback.format_exc()[-1500:], 'time': 0})
-                funcs_report.append({'function': key, 'status': 'engine_error'})
+                results.append({'name': shown_key + '#generable', 'func': key, 'verdict': 'out_of_subset', 'reason': 'engine error: ' + traceback.format_exc()[-1500:], 'time': 0})
+                funcs_report.append({'function': shown_key, 'status': 'engine_error'})
                 continue
             gen_time += time.time() - t0
             notes.update(V.notes)
-            fr = {'function': key, 'file': prog.funcs[key].get('pos', ''), 'obligations': len(V.obls), 'status': 'generated'}
+            fr = {'function': shown_key, 'file': prog.funcs[key].get('pos', ''), 'obligations': len(V.obls), 'status': 'generated'}
             funcs_report.append(fr)
             for ob in V.obls:
+                if only is not None and not any(ob.kind == k or ob.kind.startswith(k + '.') for k in only):
+                    outside.append(ob.name)
+                    continue
                 tasks.append((key, ob, obligation_smt2(V, ob), 'obl'))
+            fr['obligations'] = len(V.obls) - len([o for o in outside if o.startswith(V.shown + '#')])
+            fr['assumed_callee_contracts'] = sorted(getattr(V, 'used_contracts', ()))
             # vacuity guards: preconditions satisfiable, exit reachable
             s = z3.Solver()
             for h in V.global_hyps:
@@ -283,6 +297,7 @@ def main(argv):
             'vacuity_covers_passed': covers_ok,
             'not_decided': P.get('not_decided', []),
             'known_findings_matched': matched_known,
+            'obligations_outside_this_property_not_checked': outside if prog is not None and contracts is not None else [],
             'undischarged': [{'obligation': r['name'], 'verdict': r['verdict'], 'reason': r.get('reason')} for r in results if r['verdict'] != 'unsat'],
             'vc_generation_seconds': round(gen_time, 2),
             'ir': 'go/ssa (x/tools v0.29.0, GlobalDebug) export of %s from %s' % (' '.join(P['packages']), REPO),
